@@ -91,6 +91,8 @@ def make_msg(rng, seq, uid, big=False):
     if rng.random() < 0.05:
         num = "0" * rng.randint(1, 3) + num
     tail = bytes(rng.randrange(256) for _ in range(rng.randint(0, 14)))
+    if rng.random() < 0.08:
+        tail += b"\x0143=Y\x01122=20240101-00:00:00\x01"  # the stored bytes of a retransmission: a message like any other
     if rng.random() < 0.06:
         # a second SOH-delimited 34=<n> further inside the message (an embedded frame in a data field): the message
         # is filed under its FIRST MsgSeqNum
